@@ -1,6 +1,6 @@
 (* C03 -- allocation failure is always signalled, never returned as null or absorbed.  Statements only. *)
 From Coq Require Import ZArith List Bool.
-From FM Require Import FixedStack SmallCarve PoolSpec SlotProofs ListLib PoolSpecProofs Stack StackProofs Arena ArenaProofs Iteration IterationProofs NewLoop NewLoopProofs.
+From FM Require Import FixedStack SmallCarve PoolSpec SlotProofs ListLib PoolSpecProofs Stack StackProofs Arena ArenaProofs Iteration IterationProofs NewLoop NewLoopProofs InvalidRelease SmallList SmallRefine OrderedList OrderedRefine CollExec CollExecProofs CollInst CollSizes CollInstProofs UnorderedList UnorderedRefine.
 Import ListNotations.
 Local Open Scope Z_scope.
 
@@ -88,3 +88,23 @@ Theorem C03_new_allocator_calls_no_handler_twice : forall table fuel avail cur, 
 Proof. exact no_handler_called_twice. Qed.
 Print Assumptions C03_new_allocator_calls_no_handler_twice.
 
+(* the Exec models of memory_pool_collection (CollExec.v, all three list types): try_ functions never throw and never reach the
+   block source, throwing functions never return null, and a refused request leaves every list's allocations as they were *)
+Theorem C03_collection_exec_outcome_discipline : forall log2 s sp o s' r evs, UCPR s sp -> ucoll_answer_ok log2 s sp o ->
+  uc_step log2 s o = Some (s', r, evs) -> forall try_ arr ns bytes, cc_spec_op (coll_bkt log2) o = OAlloc try_ arr ns bytes ->
+  (try_ = true -> r <> ObsThrow /\ existsb is_up evs = false) /\ (try_ = false -> r <> ObsNull) /\
+  (r = ObsNull \/ r = ObsThrow -> exists sp', UCPR s' sp' /\ allocations_kept sp sp').
+Proof. exact ucoll_outcome_discipline. Qed.
+Print Assumptions C03_collection_exec_outcome_discipline.
+Theorem C03_ordered_collection_exec_outcome_discipline : forall log2 s sp o s' r evs, OCPR s sp -> ocoll_answer_ok log2 s sp o ->
+  oc_step log2 s o = Some (s', r, evs) -> forall try_ arr ns bytes, cc_spec_op (coll_bkt log2) o = OAlloc try_ arr ns bytes ->
+  (try_ = true -> r <> ObsThrow /\ existsb is_up evs = false) /\ (try_ = false -> r <> ObsNull) /\
+  (r = ObsNull \/ r = ObsThrow -> exists sp', OCPR s' sp' /\ allocations_kept sp sp').
+Proof. exact ocoll_outcome_discipline. Qed.
+Print Assumptions C03_ordered_collection_exec_outcome_discipline.
+Theorem C03_small_collection_exec_outcome_discipline : forall log2 s sp o s' r evs, SCPR s sp -> scoll_answer_ok log2 s sp o ->
+  sc_step log2 s o = Some (s', r, evs) -> forall try_ arr ns bytes, cc_spec_op (coll_bkt_me 1%N log2) o = OAlloc try_ arr ns bytes ->
+  (try_ = true -> r <> ObsThrow /\ existsb is_up evs = false) /\ (try_ = false -> r <> ObsNull) /\
+  (r = ObsNull \/ r = ObsThrow -> exists sp', SCPR s' sp' /\ allocations_kept sp sp').
+Proof. exact scoll_outcome_discipline. Qed.
+Print Assumptions C03_small_collection_exec_outcome_discipline.
